@@ -100,6 +100,26 @@ theorem result_fromDict_toDict (o : Val) (h : Good .result o) :
   obtain ⟨o', h3, h4⟩ := h2 d (sim_refl d)
   exact ⟨d, o', h1, h3, h4⟩
 
+/-! ### index-keyed groups: read by constructed key, never in storage order -/
+
+/-- `result_dict['models']['model_%d' % i]` and `dict_to_list`'s `d[str(i)]`: what is read from
+    an index-keyed dictionary depends only on its lookups and its size, not on the order in
+    which the file lists its members (HDF5 lists `'model_10'` before `'model_2'`) -/
+theorem index_lookup_order_free (key : Nat → String) (d1 d2 : Val)
+    (hget : ∀ k, d1.get? k = d2.get? k) (hsize : d1.size = d2.size) :
+    byIndex key d1 = byIndex key d2 := by
+  unfold byIndex
+  rw [hsize]
+  exact byIndexAux_congr key d1 d2 hget _ _
+
+/-- … and when the keys are `key 0, key 1, …` (distinct names) the entries come back in
+    numeric order: the i-th model belongs to the i-th evaluation column for any number of
+    models -/
+theorem index_lookup_numeric (d : Val) :
+    (keysFrom modelKey 0 d → byIndex modelKey d = .ok d) ∧
+    (keysFrom indexKey 0 d → byIndex indexKey d = .ok d) :=
+  ⟨byIndex_keysFrom modelKey modelKey_inj d, byIndex_keysFrom indexKey indexKey_inj d⟩
+
 /-! ### whole round trips through the file system -/
 
 /-- save then load, either file type, path or handle, fresh target or overwrite requested
@@ -334,7 +354,17 @@ example : Good .result (mkResult (.tens .nd [1, 1, 2] [.num .float (.fin 1), .nu
     .none .none .none) :=
   ⟨_, _, _, _, _, _, _, _, _, _, _, _, rfl,
     ModelsWF.cons _ _ _ (IsModel.fixed "m" _ _ _ _ _ (arange .list 3) (by decide +kernel) (by rfl) (by decide +kernel))
-      ModelsWF.nil, by decide +kernel⟩
+      ModelsWF.nil, ⟨by decide +kernel, trivial⟩, by decide +kernel⟩
+-- a group listed alphabetically (`model_10` before `model_2`) is read in numeric order
+example :
+    byIndex modelKey (mkDict [("model_0", .str "a"), ("model_1", .str "b"), ("model_10", .str "k"),
+      ("model_11", .str "l"), ("model_2", .str "c"), ("model_3", .str "d"), ("model_4", .str "e"),
+      ("model_5", .str "f"), ("model_6", .str "g"), ("model_7", .str "h"), ("model_8", .str "i"),
+      ("model_9", .str "j")]) =
+    .ok (mkDict [("model_0", .str "a"), ("model_1", .str "b"), ("model_2", .str "c"),
+      ("model_3", .str "d"), ("model_4", .str "e"), ("model_5", .str "f"), ("model_6", .str "g"),
+      ("model_7", .str "h"), ("model_8", .str "i"), ("model_9", .str "j"), ("model_10", .str "k"),
+      ("model_11", .str "l")]) := by decide +kernel
 example : opOk (.takeRdms [1, 1, 0]) = true ∧ opOk (.setDesc "k" (.str "ü")) = true ∧
     opOk (.setMeasure .none) = true := by decide
 example : (1 : ℚ) < 4 ∧ (4 : ℚ) < 6 ∧ (1 : ℚ) ≠ 0 := by norm_num
